@@ -20,6 +20,7 @@ def run(ctx, db, tier):
     per_inst = tier == 'thorough'
     atomic.check_roles(ctx, db, 'C03.R1-memory-order-roles', floor=30)
     refused_subscribe_acquires(ctx, db, 'C03.R1-refused-subscribe-acquires')
+    free_path_acquires_first(ctx, db, 'C03.R1-free-path-acquires-first')
     summ = publish.Summaries(db)
     publish.check_no_touch(ctx, db, 'C03.R2-no-touch-after-publish', summ, per_instance=per_inst, floor=12)
     la = locks.check_guarded(ctx, db, 'C03.R3-lock-discipline', GUARDED, GUARDED_CLASSES, per_instance=per_inst, floor=40)
@@ -57,3 +58,24 @@ def refused_subscribe_acquires(ctx, db, rid):
         ctx.ob(rid, f, f['key'], bad is None, 'a refused registration (return false) is ordered after the resolution by an acquire',
                desc='refused subscribe without acquire')
         break
+
+
+def free_path_acquires_first(ctx, db, rid):
+    """a request that finds the mutex free takes it through a release-only CAS; its acquire is build_queue's exchange, so inside
+    build_queue nothing of the owner-private state may be read or written before that exchange (assertions included)"""
+    from ..core import Tracer, norm, fmt_trace
+    ctx.rule(rid, 'ORDER+ATOMIC', 'mutex::build_queue: on every path (assertion paths included) the first access to the owner-private FIFO (_queue) comes after the exchange on _requests '
+             'with order >= acquire: the requester that found the mutex free acquires the previous owner\'s writes only there')
+    T = Tracer(db, depth=0, maxvisit=2)
+    for f in db.need('cocls::mutex::build_queue')[:1]:
+        trs = T.traces(f)
+        ctx.paths(rid, len(trs))
+        bad = None
+        for tr in trs:
+            acquired = False
+            for it in tr:
+                if it.k == 'call' and atomic.is_atomic_call(it) and norm(it.get('field') or '') == 'cocls::mutex::_requests' and atomic.opname(it) in ('exchange', 'load', 'compare_exchange_strong', 'compare_exchange_weak', 'fetch_add') and atomic.acq(atomic.success_order(it)):
+                    acquired = True
+                if it.k in ('read', 'write') and norm(it.get('field') or '') == 'cocls::mutex::_queue' and not acquired:
+                    bad = bad or tr
+        ctx.ob(rid, f, f['key'], bad is None, 'no access to _queue before the acquiring exchange', desc='_queue accessed in build_queue before the acquiring exchange', trace=fmt_trace(bad) if bad else None)
